@@ -15,6 +15,58 @@ pub trait Elem: Clone + Send + Sync + 'static {
     fn dec(&self) -> Cell;
 }
 
+thread_local! {
+    static NAN_KIND: std::cell::Cell<u8> = const { std::cell::Cell::new(0) };
+    static NAN_CALLS: std::cell::Cell<u64> = const { std::cell::Cell::new(0) };
+}
+/// Which NaN a null of a float encoding is written as (DESIGN 5.4): 0 = the constant `NAN` (positive, quiet,
+/// no payload); 1 = the NaN x86-64 arithmetic produces at run time (`0.0/0.0`: sign bit set); 2 = a positive
+/// NaN with a payload; 3 = alternating between 1 and 0 from null to null. All of them are "NaN", i.e. the same null.
+pub fn with_nan_kind<R>(kind: u8, f: impl FnOnce() -> R) -> R {
+    struct Reset(u8);
+    impl Drop for Reset {
+        fn drop(&mut self) {
+            NAN_KIND.with(|k| k.set(self.0));
+        }
+    }
+    let _r = Reset(NAN_KIND.with(|k| k.replace(kind)));
+    NAN_CALLS.with(|c| c.set(0));
+    f()
+}
+pub fn nan_kind() -> u8 {
+    NAN_KIND.with(|k| k.get())
+}
+fn nan_bits64() -> u64 {
+    match nan_kind() {
+        0 => f64::NAN.to_bits(),
+        1 => 0xFFF8_0000_0000_0000,
+        2 => 0x7FF8_0000_0000_0ABC,
+        _ => {
+            let n = NAN_CALLS.with(|c| c.replace(c.get() + 1));
+            if n % 2 == 0 {
+                0xFFF8_0000_0000_0000
+            } else {
+                f64::NAN.to_bits()
+            }
+        }
+    }
+}
+trait NanOf {
+    fn null_nan() -> Self;
+}
+impl NanOf for f64 {
+    fn null_nan() -> f64 {
+        f64::from_bits(nan_bits64())
+    }
+}
+impl NanOf for f32 {
+    fn null_nan() -> f32 {
+        let b = nan_bits64();
+        // same sign, quiet bit, low payload bits
+        f32::from_bits((((b >> 63) as u32) << 31) | 0x7FC0_0000 | (b as u32 & 0xFFF))
+    }
+}
+
 macro_rules! elem_float {
     ($t:ty, $n:expr) => {
         impl Elem for $t {
@@ -24,7 +76,7 @@ macro_rules! elem_float {
             fn enc(x: X) -> Self {
                 match x {
                     Some(v) => v as $t,
-                    None => <$t>::NAN,
+                    None => <$t as NanOf>::null_nan(),
                 }
             }
             fn dec(&self) -> Cell {
